@@ -285,6 +285,11 @@ func (m *manager) fillAllRequests(response error) {
 }
 
 func (m *manager) emitReceivedEvents() {
+	if m.shutdownRequested {
+		// told to stop in the middle of a validation: nothing is announced any more,
+		// the run loop answers what is still pending on its way out
+		return
+	}
 	if len(m.leases) == 0 {
 		m.log.Debug("emit received events skips due to no leases", "data", m.data, "leases", len(m.leases), "manifests", len(m.manifests))
 		m.fillAllRequests(ErrNoLeaseForDeployment)
@@ -348,6 +353,10 @@ func (m *manager) validateRequests() {
 var errManifestRejected = errors.New("manifest rejected")
 
 func (m *manager) checkHostnamesForManifest(requestManifest manifest.Manifest, groupNames []string) error {
+	if m.shutdownRequested {
+		return ErrNotRunning
+	}
+
 	allHostnames := make([]string, 0)
 
 	for _, mgroup := range requestManifest.GetGroups() {
